@@ -93,6 +93,7 @@ func init() {
 		"unicode.IsDigit":                  icUnicode,
 		"unicode.IsPrint":                  icUnicode,
 		"sort.Slice":                       icSortSlice,
+		"slices.Grow":                      icSlicesGrow,
 		"sort.Strings":                     icSortStrings,
 		repoMod + "/eth.Keccak":            icKeccak,
 	}
@@ -325,6 +326,11 @@ func (e *Engine) intrinsic(fr *frame, fn *ssa.Function, args []Value, c *ssa.Cal
 			return args[1]
 		}
 		return args[2]
+	case "AllocLimit":
+		e.allocLimit = int(e.mustConst(args[0].(*Term), "AllocLimit"))
+		return nil
+	case "AllocCheck":
+		return nil
 	case "Unwind":
 		e.unwind = int(e.mustConst(args[0].(*Term), "Unwind"))
 		return nil
@@ -1318,4 +1324,12 @@ func icStrStrStr(f func(a, b string) string) interceptFn {
 		}
 		return e.concStr(f(a, b)), true
 	}
+}
+
+func icSlicesGrow(e *Engine, fr *frame, fn *ssa.Function, args []Value, c *ssa.CallCommon) (Value, bool) {
+	n := args[1].(*Term)
+	e.require(e.tt.Bin(OpSle, e.c64(0), n), "explicit", "cannot be negative", token.NoPos)
+	e.allocCheck(n)
+	// capacity is not observable by the code under analysis beyond append behaviour
+	return args[0], true
 }
